@@ -3,7 +3,7 @@
    t_arr_precheck = true in the scanned tree).  Each statement instantiates the faithful model with the quirk flag q = true or
    with `set_precheck false`, i.e. with the behaviour before the fixes of F-PY-ARRELEM / F-PY-ARRWRAP. *)
 From Coq Require Import List NArith ZArith Bool.
-From Verif Require Import PyObj Gen_PyObj PyObjThm PyObjThmWrap PyObjThmReject.
+From Verif Require Import PyObj Gen_PyObj PyObjThm PyObjThmWrap PyObjThmReject PyObjThmLegal.
 Import ListNotations.
 Open Scope Z_scope.
 
@@ -54,3 +54,16 @@ Theorem C18h_numeric_text_refuted : forall q,
   assign_array (set_text_guard false TG) PW q false 2 false (EPrim (KU 8)) (PBytes [49%N; 50%N; 51%N]) = Ok (PArr (DU 8) [PInt 123]) /\
   assign_array (set_text_guard false TG) PW q true 1 false (EPrim (KU 8)) (PBytes [49%N; 50%N]) = Ok (PArr (DU 8) [PInt 12]).
 Proof. exact numeric_text_refuted. Qed.
+
+(* F-PY-NPSCALAR: without the exact source check (_int_elements_ok_), a NumPy scalar or an ndarray inside a list is C-cast by np.array
+   and wraps around (300.0 -> 44); the range check of the source exempted lists that contain a float.  Until the fix lands in /repo
+   this describes the current tree (t_src_exact tmpl_gen = false); afterwards it is a record of the defect. *)
+Theorem C18h_npscalar_wrap_refuted : forall q,
+  assign_array (set_src_exact false TGf) PW q false 4 false (EPrim (KU 8)) (PList [PArr (DF 64) [PFloat 4643985272004935680]])
+  = Ok (PArr (DU 8) [PInt 44]).
+Proof. exact npscalar_wrap_refuted. Qed.
+
+Theorem C18h_nested_ndarray_wrap_refuted : forall q,
+  assign_array (set_src_exact false TGf) PW q false 4 false (EPrim (KU 8))
+    (PList [PArr (DF 64) [PFloat 4643985272004935680; PFloat 4607182418800017408]]) = Ok (PArr (DU 8) [PInt 44; PInt 1]).
+Proof. exact nested_ndarray_wrap_refuted. Qed.
